@@ -893,6 +893,7 @@ func checkC07(P *Program, r *Result, tier string) {
 			r.add("EMPTY-SLOT", shortName(fn), "test", "a negative slot value is answered with absent before it is used as an index", P.pos(fn.Pos()), okNeg, "")
 		}
 	}
+	sortedRule(P, r)
 	r.assume("hash/maphash and xxhash3 are deterministic for a fixed seed; that the collision scan finds every key (sortedness of items by slot) is a run-time invariant and not decided")
 }
 
@@ -939,3 +940,128 @@ func sameItemAddr(a, b ssa.Value) bool {
 }
 
 func init() { register("C07", "other", checkC07) }
+
+// sortedRule: the collision scan of Get relies on items of one slot standing together, which the load establishes by
+// sorting with a comparator. Whatever else it orders by, the comparator must be a refinement of "by slot":
+// Less(i, j) ⇒ slot[i] ≤ slot[j] and ¬Less(i, j) ⇒ slot[i] ≥ slot[j] — on every way out of it.
+func sortedRule(P *Program, r *Result) {
+	n := 0
+	A := newAnalysis(P)
+	for _, fn := range repoFuncs(P) {
+		if fnPkgPath(fn) != modPath+"/container/strmap" || baseName(fn) != "Less" || fn.Signature.Recv() == nil || len(fn.Params) != 3 || fn.Blocks == nil {
+			continue
+		}
+		if strings.Contains(fn.Synthetic, "wrapper") || strings.Contains(fn.Synthetic, "thunk") || strings.Contains(fn.Synthetic, "bound") {
+			continue
+		}
+		sl, ok := fn.Params[0].Type().Underlying().(*types.Slice)
+		if !ok {
+			continue
+		}
+		st, ok := sl.Elem().Underlying().(*types.Struct)
+		if !ok {
+			continue
+		}
+		slotField := -1
+		for i := 0; i < st.NumFields(); i++ {
+			if st.Field(i).Name() == "slot" {
+				slotField = i
+			}
+		}
+		if slotField < 0 {
+			continue
+		}
+		n++
+		r.Funcs[shortName(fn)] = true
+		fa := A.fa(fn)
+		// loads of x[i].slot and x[j].slot
+		var li, lj []*ssa.UnOp
+		for _, b := range fn.Blocks {
+			for _, in := range b.Instrs {
+				ld, ok := in.(*ssa.UnOp)
+				if !ok || ld.Op != token.MUL {
+					continue
+				}
+				fad, ok := ld.X.(*ssa.FieldAddr)
+				if !ok || fad.Field != slotField {
+					continue
+				}
+				ia, ok := fad.X.(*ssa.IndexAddr)
+				if !ok || ia.X != ssa.Value(fn.Params[0]) {
+					continue
+				}
+				switch ia.Index {
+				case ssa.Value(fn.Params[1]):
+					li = append(li, ld)
+				case ssa.Value(fn.Params[2]):
+					lj = append(lj, ld)
+				}
+			}
+		}
+		isSlot := func(v ssa.Value, set []*ssa.UnOp) bool {
+			for _, l := range set {
+				if ssa.Value(l) == v {
+					return true
+				}
+			}
+			return false
+		}
+		ctx := rootCtx
+		prove := func(le bool, blk *ssa.BasicBlock) bool {
+			for _, a := range li {
+				for _, b := range lj {
+					if !(a.Block() == blk || a.Block().Dominates(blk)) || !(b.Block() == blk || b.Block().Dominates(blk)) {
+						continue
+					}
+					x, y := fa.expand(a), fa.expand(b)
+					if le && fa.prove(ineqLE(x, y), blk, ctx) {
+						return true
+					}
+					if !le && fa.prove(ineqGE(x, y), blk, ctx) {
+						return true
+					}
+				}
+			}
+			return false
+		}
+		for _, rc := range retCases(fn) {
+			v := rc.results[0]
+			blk := rc.at.Block()
+			ctx = rootCtx
+			if iff, isIf := rc.at.(*ssa.If); isIf && rc.pred >= 0 {
+				ef := &edgeFacts{}
+				fa.edgeCond(iff.Block(), rc.ret.Block(), ef)
+				ctx = rootCtx.with(ef.ineq, ef.neq)
+			}
+			ctxOK, detail := false, ""
+			switch x := v.(type) {
+			case *ssa.Const:
+				if x.Value != nil && x.Value.Kind() == constant.Bool {
+					if constant.BoolVal(x.Value) {
+						ctxOK = prove(true, blk)
+						detail = "true is answered where slot[i] ≤ slot[j] is not known"
+					} else {
+						ctxOK = prove(false, blk)
+						detail = "false is answered where slot[i] ≥ slot[j] is not known"
+					}
+				}
+			case *ssa.BinOp:
+				switch {
+				case x.Op == token.LSS && isSlot(x.X, li) && isSlot(x.Y, lj), x.Op == token.GTR && isSlot(x.X, lj) && isSlot(x.Y, li):
+					ctxOK = true
+				default:
+					// a tie-break: only where the slots are known to be equal
+					ctxOK = prove(true, blk) && prove(false, blk)
+					detail = "another comparison decides where the slots are not known to be equal"
+				}
+			default:
+				detail = "the answer is not a comparison the rule can read"
+			}
+			if ctxOK {
+				detail = ""
+			}
+			r.add("SLOT-AGREE", shortName(fn), "order", "the comparator the items are sorted with refines the order by slot (items of one slot end up together)", P.pos(instrPos(rc.ret)), ctxOK, detail)
+		}
+	}
+	r.require("strmap: the comparator of the slot sort", n > 0)
+}
